@@ -31,6 +31,14 @@ for p in props:
     rows.append(f"| {pid} | {', '.join(c.get('props_modules', [pid]))} | {ev.get('discharged', '?')}/{ev.get('obligations', '?')} | "
                 f"{ev.get('evaluations', '?')} / {ev.get('traces_validated_against_impl', '?')} | {', '.join(known.get(pid, [])) or '–'} | {', '.join(fixed.get(pid, [])) or '–'} |")
 status = "\n".join(rows)
+notes = ["", "What is trusted / partial per property (`level_note` of checks.d, also in MANIFEST.json):", ""]
+for p in props:
+    pid = p["id"]
+    cp = os.path.join(ROOT, "checks.d", pid + ".json")
+    if os.path.exists(cp):
+        c = json.load(open(cp))
+        notes.append(f"* **{pid}** — " + c.get("level_note", "").replace("\n", " "))
+status += "\n" + "\n".join(notes)
 
 srows = ["| seeded change | property | what it breaks (from meta.json) | needs to manifest | quick check result |", "|---|---|---|---|---|"]
 res = {}
